@@ -737,7 +737,19 @@ func docIsIdent(s string) bool {
 	return s != ""
 }
 
-var docBoolLiterals = map[string]bool{"true": true, "True": true, "TRUE": true, "1": true, "false": true, "False": true, "FALSE": true, "0": true}
+// the literals docs/builtins.md says str2bool accepts — read from the documentation
+// of the tree under test (the same parse as the translator's Gen/DocLiterals.v)
+var docBoolLiterals = func() map[string]bool {
+	m := map[string]bool{}
+	t, f, err := docBoolLiteralLists()
+	if err != nil {
+		return nil
+	}
+	for _, s := range append(t, f...) {
+		m[s] = true
+	}
+	return m
+}()
 
 func implRet(impl c13Obs, i int) (string, bool) {
 	if i >= len(impl.Calls) || !strings.HasPrefix(impl.Calls[i], "ret:") {
@@ -856,6 +868,10 @@ func c13PropertyOracles(c *c13Case, impl c13Obs, out RunOutcome, src string, r *
 				}
 			}
 		case "str2bool":
+			if docBoolLiterals == nil {
+				viol("str2bool-doc-literals-unreadable", "the list of literals str2bool accepts could not be read from docs/builtins.md")
+				break
+			}
 			s := call.Args[0].S
 			isErr, _ := implErr(impl, i)
 			if !docBoolLiterals[s] && !isErr {
@@ -1288,7 +1304,7 @@ func c13Corpus() []*c13Case {
 		mk("C13_repr_keys_before_fix_refuted (regression, 09cb4c8)", call("repr", vMap(tyNum, []string{"1a", " b", "ok_1", "", "a b"}, []cVal{vNum(1), vNum(2), vNum(3), vNum(4), vNum(5)}))),
 		mk("C13_index_bytes_before_fix_refuted (regression, 79c1bbb)", call("index", vStr("äb"), vStr("b"))),
 		mk("C13_printf_mismatch_refuted", call("sprintf", vStr("%s"), vNum(1))),
-		mk("C13_str2bool_doc_literals_refuted", call("str2bool", vStr("t"))),
+		mk("C13_str2bool_doc_literals_before_fix_refuted (regression, 3dac639)", call("str2bool", vStr("t"))),
 		mk("C13_str2num_before_fix_refuted (regression, e40074a)", call("str2num", vStr("1e999"))),
 		mk("split-empty", call("split", vStr(""), vStr("")), call("split", vStr(""), vStr(",")), call("split", vStr("äbc"), vStr(""))),
 		mk("err-reset", call("str2num", vStr("x")), call("str2bool", vStr("true")), call("str2bool", vStr("no")), call("len", vStr("abc")), call("str2num", vStr("1"))),
